@@ -341,7 +341,9 @@ def check_property(prop, tier="quick", seed=0):
                     continue
                 checker_errors.append("conformance mismatch (model vs numpy) in %s on %s: %s" % (r["case"], mm["values"], mm["what"]))
         for o in r["obligations"]:
-            if unreliable and o["status"] in ("refuted", "discharged"):
+            # (a failed cover obligation included: with a model that raises on every path - a missing attribute of a
+            # model class - "no returning path" says nothing about the code; nothing is counted as proved here)
+            if unreliable and o["status"] in ("refuted", "discharged", "error"):
                 o = dict(o)
                 o["detail"] = "model unreliable on this tree (was %s): %s" % (o["status"], (o.get("detail") or "")[:200])
                 o["status"] = "undecided"
